@@ -441,7 +441,7 @@ def run(rep, ctx):
     rep.rule("R05.8", "cached systems handed out by the analyzer are never modified afterwards")
     with rep.guard("R05.8"):
         from .. import symrules as _SR3
-        _SR3.handed_out_objects_not_mutated(rep, ctx.model, "R05.8")
+        _SR3.handed_out_objects_not_mutated(rep, ctx.model, "R05.8", three_d_only=True)
     rep.floor("R05.1", 65)
     rep.floor("R05.2", 2400)
     rep.floor("R05.3", 7)
